@@ -1,19 +1,25 @@
-"""Sign lemmas by structural decomposition.
+"""Sign and bound lemmas by structural decomposition.
 
 The nonlinear definedness questions of the numeric kernels ("can this denominator be zero?", "can the base of this
 real power be negative?", "is this index non-negative?") are sign questions about products, quotients and powers of
 sub-terms whose own signs follow from the stated preconditions.  z3's incremental core routinely gives up on them when
 the whole path condition (nested If / pow / interp terms) is in the query, although every single step is trivial.
 
-``signs_of(ctx, t)`` derives the set of signs {-1, 0, +1} a real / integer term can take under the current path
-condition:
+``interval_of(ctx, t)`` derives an interval with rational end points (open, closed or infinite) that contains the real /
+integer term ``t`` under the current path condition:
 
-* leaves (constants, array reads, uninterpreted applications without a rule) and small composite terms are settled by
-  the path's *light* solver (the small conjuncts of the path condition): one query per excluded sign;
-* composite terms combine the signs of their arguments by the sign rules of +, -, *, /, If and of the axiomatised
-  transcendentals (exp > 0; pow(a, b) > 0 for a > 0, pow(0, b) = 0 for b > 0; sqrt >= 0, sqrt(x) > 0 for x > 0 -- the same
-  instances `pyvc.models.mathfn` adds to the path condition and the evidence lists as trusted);
-* If(c, x, y): the light solver settles c, or the two branches are analysed under c / not c.
+* numerals are exact; leaves (constants, array reads, applications without a rule) and small composite terms are settled
+  by the path's *light* solver (the small conjuncts of the path condition): one ``unsat`` answer per excluded sign, and a
+  comparison with 1 where a rule below needs it;
+* composite terms combine the intervals of their arguments by interval arithmetic for + - * / and by the facts of the
+  axiomatised transcendentals: exp > 0; pow(a, b) > 0 for a > 0, pow(a, b) >= 1 for a >= 1, b >= 0, pow(a, b) <= 1 for
+  0 < a <= 1, b >= 0, pow(0, b) = 0 for b > 0; sqrt >= 0, sqrt(x) > 0 for x > 0; ln(x) >= 0 for x >= 1 - the same facts
+  `pyvc.models.mathfn` adds as axiom instances and the evidence lists as trusted;
+* (x * y) / x is y for x != 0; a / b >= 1 if b > 0 and the normalised polynomial a - b is >= 0;
+* If(c, x, y): the light solver settles c, or the two branches are analysed under c / not c and joined;
+  If(x >= y, x, y) / If(x <= y, x, y) are max / min;
+* terms registered by a library model with bounding terms (``ctx.term_bounds``: np.interp lies between the smallest and
+  the largest of its node values) take the interval spanned by the bounds' intervals.
 
 Every result is a consequence of the path condition (each leaf fact is an `unsat` answer of z3, each rule is valid over the
 reals), so a branch it excludes is infeasible and a goal it establishes is proved; the evidence reports such obligations
@@ -21,55 +27,213 @@ under the back end ``z3-sign-lemmas``.  What it cannot settle is left to the ord
 """
 from __future__ import annotations
 
+from fractions import Fraction
+
 import z3
 
-ALL = frozenset((-1, 0, 1))
-POS = frozenset((1,))
-NEG = frozenset((-1,))
-ZERO = frozenset((0,))
-NONNEG = frozenset((0, 1))
-NONPOS = frozenset((-1, 0))
-
 STATS = dict(queries=0, decided=0)
+import os as _os
+_DEBUG = bool(_os.environ.get('VERIF_DEBUG_SIGNS'))
 
 
-def _add2(a, b):
-    if a == 0:
-        return {b}
-    if b == 0:
-        return {a}
-    if a == b:
-        return {a}
-    return {-1, 0, 1}
+def _explain(sc, t, ind, maxd=9):
+    import sys
+    from .core import _small
+    if ind > maxd:
+        return
+    try:
+        I = sc.iv(t)
+    except Exception as e:   # noqa
+        I = e
+    head = t.decl().name() if z3.is_app(t) else '?'
+    txt = str(t).replace('\n', ' ') if _small(t, 5) else f'<{t.num_args() if z3.is_app(t) else 0} args, depth {z3.Z3_get_depth(t.ctx.ref(), t.as_ast())}>'
+    print('  ' * ind + f'{head} {I}  :: {txt[:110]}', file=sys.stderr)
+    if z3.is_app(t) and not (not isinstance(I, Exception) and (I.gt0() or I.lt0())):
+        for c in t.children():
+            if z3.is_arith(c):
+                _explain(sc, c, ind + 1, maxd)
+INF = None
 
 
-def s_add(A, B):
-    out = set()
-    for a in A:
-        for b in B:
-            out |= _add2(a, b)
-    return frozenset(out)
+class Iv:
+    """Interval: lo / hi are Fractions or None (infinite); ls / hs True = that end is excluded."""
+    __slots__ = ('lo', 'ls', 'hi', 'hs')
+
+    def __init__(self, lo=None, ls=True, hi=None, hs=True):
+        self.lo, self.ls, self.hi, self.hs = lo, (ls if lo is not None else True), hi, (hs if hi is not None else True)
+
+    def __repr__(self):
+        return ('(' if self.ls else '[') + f'{self.lo}, {self.hi}' + (')' if self.hs else ']')
+
+    @property
+    def top(self):
+        return self.lo is None and self.hi is None
+
+    def gt0(self):
+        return self.lo is not None and (self.lo > 0 or (self.lo == 0 and self.ls))
+
+    def ge0(self):
+        return self.lo is not None and self.lo >= 0
+
+    def lt0(self):
+        return self.hi is not None and (self.hi < 0 or (self.hi == 0 and self.hs))
+
+    def le0(self):
+        return self.hi is not None and self.hi <= 0
+
+    def nonzero(self):
+        return self.gt0() or self.lt0()
+
+    def is_zero(self):
+        return self.lo == 0 and self.hi == 0 and not self.ls and not self.hs
+
+    def ge(self, c):
+        return self.lo is not None and self.lo >= c
+
+    def le(self, c):
+        return self.hi is not None and self.hi <= c
 
 
-def s_neg(A):
-    return frozenset(-a for a in A)
+TOP = Iv()
+POS = Iv(Fraction(0), True, None, True)
+NONNEG = Iv(Fraction(0), False, None, True)
+NEG = Iv(None, True, Fraction(0), True)
+NONPOS = Iv(None, True, Fraction(0), False)
 
 
-def s_mul(A, B):
-    return frozenset(a * b for a in A for b in B)
+def point(q):
+    return Iv(q, False, q, False)
 
 
-def s_div(A, B):
-    if 0 in B:
-        return ALL          # x / 0 is unspecified in SMT-LIB (and undefined in Python): say nothing
-    return frozenset(a * b for a in A for b in B)
+def _lo_add(a, asx, b, bsx):
+    if a is None or b is None:
+        return None, True
+    return a + b, asx or bsx
+
+
+def i_add(A, B):
+    lo, ls = _lo_add(A.lo, A.ls, B.lo, B.ls)
+    hi, hs = _lo_add(A.hi, A.hs, B.hi, B.hs)
+    return Iv(lo, ls, hi, hs)
+
+
+def i_neg(A):
+    return Iv(None if A.hi is None else -A.hi, A.hs, None if A.lo is None else -A.lo, A.ls)
+
+
+def _ends(A):
+    """end points as (value | +-inf marker, strict)."""
+    return [(A.lo, A.ls, -1), (A.hi, A.hs, +1)]
+
+
+def i_mul(A, B):
+    if A.is_zero() or B.is_zero():
+        return point(Fraction(0))
+    # products of end points, with infinities: sign-aware
+    cands = []
+    for (a, asx, ad) in _ends(A):
+        for (b, bsx, bd) in _ends(B):
+            if a is None and b is None:
+                cands.append((None, ad * bd, True))
+            elif a is None:
+                if b == 0:
+                    cands.append((Fraction(0), 0, bsx))        # 0 * inf along a closed 0 end = 0; if 0 excluded the product stays away from it only in sign
+                else:
+                    cands.append((None, ad * (1 if b > 0 else -1), True))
+            elif b is None:
+                if a == 0:
+                    cands.append((Fraction(0), 0, asx))
+                else:
+                    cands.append((None, bd * (1 if a > 0 else -1), True))
+            else:
+                # the end-point product is attained if both end points are, or if one of them is an attained 0
+                attained = (not asx and not bsx) or (a == 0 and not asx) or (b == 0 and not bsx)
+                cands.append((a * b, 0, not attained))
+    lo = hi = None
+    ls = hs = True
+    lo_inf = any(v is None and d < 0 for v, d, _ in cands)
+    hi_inf = any(v is None and d > 0 for v, d, _ in cands)
+    fin = [(v, s) for v, d, s in cands if v is not None]
+    if not lo_inf and fin:
+        lo = min(v for v, _ in fin)
+        ls = all(s for v, s in fin if v == lo)
+    if not hi_inf and fin:
+        hi = max(v for v, _ in fin)
+        hs = all(s for v, s in fin if v == hi)
+    return Iv(lo, ls, hi, hs)
+
+
+def i_inv(B):
+    """1 / B for B not containing 0."""
+    if B.gt0():
+        hi = None if (B.lo == 0) else 1 / B.lo
+        lo = Fraction(0) if B.hi is None else 1 / B.hi
+        return Iv(lo, True if B.hi is None else B.hs, hi, B.ls)
+    if B.lt0():
+        return i_neg(i_inv(i_neg(B)))
+    return TOP
+
+
+def i_join(A, B):
+    if A.lo is None or B.lo is None:
+        lo, ls = None, True
+    elif A.lo < B.lo or (A.lo == B.lo and not A.ls):
+        lo, ls = A.lo, A.ls
+    else:
+        lo, ls = B.lo, B.ls
+    if A.hi is None or B.hi is None:
+        hi, hs = None, True
+    elif A.hi > B.hi or (A.hi == B.hi and not A.hs):
+        hi, hs = A.hi, A.hs
+    else:
+        hi, hs = B.hi, B.hs
+    return Iv(lo, ls, hi, hs)
+
+
+def i_meet(A, B):
+    """Both hold."""
+    if A.lo is None:
+        lo, ls = B.lo, B.ls
+    elif B.lo is None or A.lo > B.lo or (A.lo == B.lo and A.ls):
+        lo, ls = A.lo, A.ls
+    else:
+        lo, ls = B.lo, B.ls
+    if A.hi is None:
+        hi, hs = B.hi, B.hs
+    elif B.hi is None or A.hi < B.hi or (A.hi == B.hi and A.hs):
+        hi, hs = A.hi, A.hs
+    else:
+        hi, hs = B.hi, B.hs
+    return Iv(lo, ls, hi, hs)
+
+
+def i_max(A, B):
+    lo, ls = (None, True)
+    if A.lo is not None or B.lo is not None:
+        c = [(v, s) for v, s in ((A.lo, A.ls), (B.lo, B.ls)) if v is not None]
+        lo = max(v for v, _ in c)
+        ls = all(s for v, s in c if v == lo)
+    if A.hi is None or B.hi is None:
+        hi, hs = None, True
+    else:
+        hi = max(A.hi, B.hi)
+        hs = all(s for v, s in ((A.hi, A.hs), (B.hi, B.hs)) if v == hi)
+    return Iv(lo, ls, hi, hs)
+
+
+def _num(t):
+    if z3.is_rational_value(t):
+        return Fraction(t.numerator_as_long(), t.denominator_as_long())
+    if z3.is_int_value(t):
+        return Fraction(t.as_long())
+    return None
 
 
 class SignCtx:
     def __init__(self, ctx):
         self.ctx = ctx
         self.cache = {}
-        self.budget = 400      # light-solver queries per top-level question
+        self.budget = 600      # light-solver queries per top-level question
 
     # -- leaf queries --------------------------------------------------------------------------------
     def _excluded(self, cond):
@@ -92,61 +256,71 @@ class SignCtx:
                 pass
             return False
 
-    def query(self, t, among=ALL):
+    def query(self, t, known=TOP):
         zero = z3.RealVal(0) if t.sort().kind() == z3.Z3_REAL_SORT else z3.IntVal(0)
-        out = set(among)
-        if 1 in out and self._excluded(t > zero):
-            out.discard(1)
-        if -1 in out and self._excluded(t < zero):
-            out.discard(-1)
-        if 0 in out and len(out) > 1 and self._excluded(t == zero):
-            out.discard(0)
-        return frozenset(out)
+        r = known
+        if not (r.gt0() or r.lt0()):
+            no_pos = (not r.le0()) and self._excluded(t > zero)
+            no_neg = (not r.ge0()) and self._excluded(t < zero)
+            if no_pos or r.le0():
+                r = i_meet(r, NONPOS)
+            if no_neg or r.ge0():
+                r = i_meet(r, NONNEG)
+            if r.ge0() and not r.gt0() and not r.le0() and self._excluded(t == zero):
+                r = i_meet(r, POS)
+            elif r.le0() and not r.lt0() and not r.ge0() and self._excluded(t == zero):
+                r = i_meet(r, NEG)
+        return r
 
     # -- structure -----------------------------------------------------------------------------------
-    def signs(self, t, depth=0):
+    def iv(self, t, depth=0):
         key = t.get_id()
         hit = self.cache.get(key)
         if hit is not None:
             return hit[1]
-        r = self._signs(t, depth)
-        if r != ALL:
+        r = self._iv(t, depth)
+        if not r.top:
             self.cache[key] = (t, r)       # the term is kept alive with its entry: z3 reuses the ids of collected terms
         return r
 
-    def _signs(self, t, depth):
-        if z3.is_rational_value(t) or z3.is_int_value(t):
-            n = t.numerator_as_long() if z3.is_rational_value(t) else t.as_long()
-            return POS if n > 0 else NEG if n < 0 else ZERO
-        if depth > 60 or not z3.is_app(t):
-            return ALL
+    def _iv(self, t, depth):
+        q = _num(t)
+        if q is not None:
+            return point(q)
+        if depth > 80 or not z3.is_app(t):
+            return TOP
         k = t.decl().kind()
         ch = t.children()
-        res = ALL
+        res = TOP
+        tb = getattr(self.ctx, 'term_bounds', {}).get(t.get_id())
+        if tb is not None:
+            lo_t, hi_t = tb
+            L, H = self.iv(lo_t, depth + 1), self.iv(hi_t, depth + 1)
+            return Iv(L.lo, L.ls, H.hi, H.hs)
         if k == z3.Z3_OP_ADD:
-            res = ZERO
+            res = point(Fraction(0))
             for c in ch:
-                res = s_add(res, self.signs(c, depth + 1))
-                if res == ALL:
+                res = i_add(res, self.iv(c, depth + 1))
+                if res.top:
                     break
         elif k == z3.Z3_OP_SUB and len(ch) >= 2:
-            res = self.signs(ch[0], depth + 1)
+            res = self.iv(ch[0], depth + 1)
             for c in ch[1:]:
-                res = s_add(res, s_neg(self.signs(c, depth + 1)))
-                if res == ALL:
+                res = i_add(res, i_neg(self.iv(c, depth + 1)))
+                if res.top:
                     break
         elif k == z3.Z3_OP_UMINUS:
-            res = s_neg(self.signs(ch[0], depth + 1))
+            res = i_neg(self.iv(ch[0], depth + 1))
         elif k == z3.Z3_OP_MUL:
-            res = POS
+            res = point(Fraction(1))
             for c in ch:
-                res = s_mul(res, self.signs(c, depth + 1))
-                if res == ZERO:
+                res = i_mul(res, self.iv(c, depth + 1))
+                if res.is_zero():
                     break
-        elif k in (z3.Z3_OP_DIV,) and len(ch) == 2:
-            res = s_div(self.signs(ch[0], depth + 1), self.signs(ch[1], depth + 1))
+        elif k == z3.Z3_OP_DIV and len(ch) == 2:
+            res = self._div(ch[0], ch[1], depth)
         elif k == z3.Z3_OP_TO_REAL:
-            res = self.signs(ch[0], depth + 1)
+            res = self.iv(ch[0], depth + 1)
         elif k == z3.Z3_OP_ITE:
             res = self._ite(ch, depth)
         elif k == z3.Z3_OP_UNINTERPRETED and ch:
@@ -154,32 +328,97 @@ class SignCtx:
             if name == 'exp_':
                 res = POS
             elif name == 'pow_':
-                A = self.signs(ch[0], depth + 1)
-                if A == POS:
+                A, B = self.iv(ch[0], depth + 1), self.iv(ch[1], depth + 1)
+                if A.gt0():
                     res = POS
-                elif A <= NONNEG and self.signs(ch[1], depth + 1) == POS:
-                    res = A
+                    if B.ge0() and A.ge(1):
+                        res = Iv(Fraction(1), False, None, True)
+                    elif B.ge0() and A.le(1):
+                        res = Iv(Fraction(0), True, Fraction(1), False)
+                elif A.ge0() and B.gt0():
+                    res = NONNEG
             elif name == 'sqrt_':
-                A = self.signs(ch[0], depth + 1)
-                if A <= NONNEG:
-                    res = A
-        if len(res) > 1:
+                A = self.iv(ch[0], depth + 1)
+                if A.gt0():
+                    res = POS
+                elif A.ge0():
+                    res = NONNEG
+            elif name in ('ln', 'log10'):
+                A = self.iv(ch[0], depth + 1)
+                if A.ge(1):
+                    res = POS if (A.lo > 1 or A.ls) else NONNEG
+                elif A.gt0() and A.le(1):
+                    res = NONPOS
+        if not (res.gt0() or res.lt0() or res.is_zero()):
             # whatever the rules leave open may still follow from the small facts directly (e.g. pr - 1 > 0 from pr > 1)
             from .core import _small
             if _small(t, 6) or k in (z3.Z3_OP_UNINTERPRETED, z3.Z3_OP_SELECT) or not ch:
                 res = self.query(t, res)
         return res
 
+    def _div(self, a, b, depth):
+        B = self.iv(b, depth + 1)
+        if not B.nonzero():
+            return TOP            # x / 0 is unspecified in SMT-LIB (and undefined in Python): say nothing
+        # (x * y * z) / (x * z) = y: factors of the (non-zero) denominator cancel against equal factors of the numerator
+        if a.get_id() == b.get_id():
+            return point(Fraction(1))
+
+        def factors(t):
+            if z3.is_app(t) and t.decl().kind() == z3.Z3_OP_MUL:
+                out = []
+                for c in t.children():
+                    out += factors(c)
+                return out
+            return [t]
+        fa, fb = factors(a), factors(b)
+        if len(fa) > 1 or len(fb) > 1:
+            rest = list(fa)
+            ok = True
+            for f in fb:
+                j = next((i for i, g in enumerate(rest) if g.get_id() == f.get_id()), None)
+                if j is None:
+                    ok = False
+                    break
+                del rest[j]
+            if ok:
+                res = point(Fraction(1))
+                for c in rest:
+                    res = i_mul(res, self.iv(c, depth + 1))
+                return res
+        A = self.iv(a, depth + 1)
+        res = i_mul(A, i_inv(B))
+        # a / b >= 1 when b > 0 and a - b >= 0 (a - b normalised into a sum of monomials, so that like terms cancel)
+        if B.gt0() and not res.ge(1) and depth < 40:
+            try:
+                d = z3.simplify(a - b, som=True)
+                if d.get_id() != (a - b).get_id():
+                    D = self.iv(d, depth + 10)
+                    if D.ge0():
+                        res = i_meet(res, Iv(Fraction(1), not D.ge0() or D.gt0(), None, True))
+            except z3.Z3Exception:
+                pass
+        return res
+
     def _ite(self, ch, depth):
         c, x, y = ch
         from .core import _small
+        # max / min written as a conditional
+        if z3.is_app(c) and c.num_args() == 2:
+            ck = c.decl().kind()
+            a, b = c.arg(0), c.arg(1)
+            same = {x.get_id(), y.get_id()} == {a.get_id(), b.get_id()}
+            if same and ck in (z3.Z3_OP_GE, z3.Z3_OP_GT, z3.Z3_OP_LE, z3.Z3_OP_LT):
+                picks_larger = (ck in (z3.Z3_OP_GE, z3.Z3_OP_GT)) == (x.get_id() == a.get_id())
+                X, Y = self.iv(x, depth + 1), self.iv(y, depth + 1)
+                return i_max(X, Y) if picks_larger else i_neg(i_max(i_neg(X), i_neg(Y)))
         small = _small(c, 9)
         if small:
             if self._excluded(z3.Not(c)):
-                return self.signs(x, depth + 1)
+                return self.iv(x, depth + 1)
             if self._excluded(c):
-                return self.signs(y, depth + 1)
-        out = set()
+                return self.iv(y, depth + 1)
+        out = None
         for cond, br in ((c, x), (z3.Not(c), y)):
             light = self.ctx.light
             saved = self.cache
@@ -188,18 +427,18 @@ class SignCtx:
             try:
                 if small:
                     light.add(cond)
-                out |= self.signs(br, depth + 1)
+                r = self.iv(br, depth + 1)
             finally:
                 light.pop()
                 self.cache = saved
-            if len(out) == 3:
+            out = r if out is None else i_join(out, r)
+            if out.top:
                 break
-        return frozenset(out)
+        return out
 
 
 _CMP = {z3.Z3_OP_LE: 'le', z3.Z3_OP_LT: 'lt', z3.Z3_OP_GE: 'ge', z3.Z3_OP_GT: 'gt', z3.Z3_OP_EQ: 'eq', z3.Z3_OP_DISTINCT: 'ne'}
 _NEGATED = dict(le='gt', lt='ge', ge='lt', gt='le', eq='ne', ne='eq')
-_HOLDS = dict(le=NONPOS, lt=NEG, ge=NONNEG, gt=POS, eq=ZERO, ne=frozenset((-1, 1)))
 
 
 def _atom(cond):
@@ -218,11 +457,10 @@ def _atom(cond):
         return None
     if neg:
         rel = _NEGATED[rel]
-    zb = (z3.is_rational_value(b) or z3.is_int_value(b)) and z3.simplify(b == 0).eq(z3.BoolVal(True))
-    za = (z3.is_rational_value(a) or z3.is_int_value(a)) and z3.simplify(a == 0).eq(z3.BoolVal(True))
-    if zb:
+    qb, qa = _num(b), _num(a)
+    if qb is not None and qb == 0:
         return rel, a
-    if za:
+    if qa is not None and qa == 0:
         flip = dict(le='ge', lt='gt', ge='le', gt='lt', eq='eq', ne='ne')
         return flip[rel], b
     if a.sort() != b.sort():
@@ -231,16 +469,49 @@ def _atom(cond):
     return rel, a - b
 
 
+def _holds(rel, I):
+    """True / False / None: does  t rel 0  hold for every / no value in I?"""
+    if rel == 'gt':
+        return True if I.gt0() else False if I.le0() else None
+    if rel == 'ge':
+        return True if I.ge0() else False if I.lt0() else None
+    if rel == 'lt':
+        return True if I.lt0() else False if I.ge0() else None
+    if rel == 'le':
+        return True if I.le0() else False if I.gt0() else None
+    if rel == 'eq':
+        return True if I.is_zero() else False if I.nonzero() else None
+    if rel == 'ne':
+        return True if I.nonzero() else False if I.is_zero() else None
+    return None
+
+
 def sign_decides(ctx, cond):
-    """True / False if the sign lemmas settle the comparison ``cond`` under ctx's path condition, else None."""
+    """True / False if the bound lemmas settle the comparison ``cond`` under ctx's path condition, else None."""
     try:
         if z3.is_and(cond):
             rs = [sign_decides(ctx, c) for c in cond.children()]
             if any(r is False for r in rs):
                 return False
             return True if all(r is True for r in rs) else None
+        if z3.is_or(cond):
+            rs = [sign_decides(ctx, c) for c in cond.children()]
+            if any(r is True for r in rs):
+                return True
+            return False if all(r is False for r in rs) else None
+        if z3.is_not(cond) and (z3.is_and(cond.arg(0)) or z3.is_or(cond.arg(0)) or z3.is_not(cond.arg(0))):
+            r = sign_decides(ctx, cond.arg(0))
+            return None if r is None else (not r)
+        if z3.is_true(cond):
+            return True
+        if z3.is_false(cond):
+            return False
         at = _atom(cond)
         if at is None:
+            if _DEBUG:
+                import sys
+                from .core import _small
+                print('SIGNS-NOT-AN-ATOM', cond.decl().name() if z3.is_app(cond) else '?', str(cond)[:300] if _small(cond, 8) else '<big>', file=sys.stderr)
             return None
         rel, t = at
         sc = getattr(ctx, '_signctx', None)
@@ -248,18 +519,27 @@ def sign_decides(ctx, cond):
             sc = SignCtx(ctx)
             if not ctx.pure_depth:
                 ctx._signctx = sc
-        sc.budget = 400
-        s = sc.signs(t)
-        if s == ALL:
+        sc.budget = 600
+        I = sc.iv(t)
+        if I.top:
+            if _DEBUG:
+                import sys
+                print('SIGNS-OPEN', rel, I, 'budget', sc.budget, file=sys.stderr)
+                _explain(sc, t, 0)
             return None
-        if not s:
+        if I.lo is not None and I.hi is not None and (I.lo > I.hi or (I.lo == I.hi and (I.ls or I.hs))):
+            if _DEBUG:
+                import sys
+                print('SIGNS-CONTRADICTORY', rel, I, file=sys.stderr)
+                _explain(sc, t, 0, 4)
             return None       # the light facts are contradictory: leave it to the ordinary path (infeasible path)
-        if s <= _HOLDS[rel]:
+        r = _holds(rel, I)
+        if r is not None:
             STATS['decided'] += 1
-            return True
-        if not (s & _HOLDS[rel]):
-            STATS['decided'] += 1
-            return False
-        return None
-    except z3.Z3Exception:
+        elif _DEBUG:
+            import sys
+            print('SIGNS-OPEN', rel, I, 'budget', sc.budget, file=sys.stderr)
+            _explain(sc, t, 0)
+        return r
+    except (z3.Z3Exception, RecursionError):
         return None
